@@ -204,7 +204,13 @@ def check_timeline(spec, o, who='sim'):
                 else:
                     nxt = round_half_even(n * step)
                     if (stop - start).days >= nxt + 1:
-                        fail('grid-length', 'calendar', f'{n} points, but point {n} at day {nxt} would still be before stop')
+                        # the same constant whole-day step also loses points before the drift exceeds a day
+                        diffs = {days[i + 1] - days[i] for i in range(n - 1)}
+                        const = len(diffs) == 1 and list(diffs)[0] == round_half_even(step) and step.denominator != 1
+                        if const:
+                            fail('date-vs-elapsed', 'constant-rounded-day-step', f'unit={unit} dt={spec["dt"]}: {n} points, but point {n} (elapsed {float(n*step)} days, day {nxt}) would still be before stop: dates advance by a constant {list(diffs)[0]} days')
+                        else:
+                            fail('grid-length', 'calendar', f'{n} points, but point {n} at day {nxt} would still be before stop')
             # strictly increasing dates
         for i in range(1, n):
             if not o.datevec[i] > o.datevec[i - 1]:
